@@ -218,7 +218,14 @@ pub struct RtScn {
     /// side, must read them all and then end-of-stream. 0: one direction only.
     #[serde(default)]
     pub back_msgs: u8,
+    /// Serde media only: the byte stream starts with one raw length-delimited preface frame that
+    /// the reading end consumes from its `Framed` *before* handing it to `serde_transport::new`
+    /// (a handshake); protocol frames pipelined behind it may already sit in the read buffer.
+    #[serde(default)]
+    pub preface: bool,
 }
+
+const PREFACE: &[u8] = b"tarpc-sim preface frame";
 
 #[derive(Clone, Debug, Serialize, Deserialize, PartialEq)]
 pub enum AdvMsg {
@@ -301,6 +308,8 @@ fn gen_pipe_raw(rng: &mut Rng) -> PipeCfg {
     }
 }
 
+const YEAR_MS: u64 = 365 * 86_400_000;
+
 pub fn gen_roundtrip(rng: &mut Rng) -> BytesScn {
     let medium = match rng.below(8) {
         0..=2 => Medium::SerdeJson,
@@ -329,7 +338,7 @@ pub fn gen_roundtrip(rng: &mut Rng) -> BytesScn {
                 msgs.push(MsgSpec::RespErr { id, kind: rng.below(KINDS.len() as u64) as u8, detail: b });
             }
         } else if rng.chance(700) {
-            msgs.push(MsgSpec::Req { id, body: b, deadline_ms: *rng.pick(&[0u64, 1, 50, 1000, 10_000, 3_600_000]), trace, span, sampled: rng.chance(500) });
+            msgs.push(MsgSpec::Req { id, body: b, deadline_ms: *rng.pick(&[0u64, 1, 50, 1000, 10_000, 3_600_000, 3_600_000, 29 * YEAR_MS, 40 * YEAR_MS, 100 * YEAR_MS]), trace, span, sampled: rng.chance(500) });
         } else {
             msgs.push(MsgSpec::Cancel { id, trace, span, sampled: rng.chance(500) });
         }
@@ -365,6 +374,7 @@ pub fn gen_roundtrip(rng: &mut Rng) -> BytesScn {
             }
         }
     }
+    let medium_is_serde = matches!(medium, Medium::SerdeJson | Medium::SerdeBincode);
     BytesScn::Roundtrip(RtScn {
         optional_fields: medium == Medium::SerdeJson && !responses && rng.chance(300),
         medium,
@@ -376,6 +386,7 @@ pub fn gen_roundtrip(rng: &mut Rng) -> BytesScn {
         gap_ms: if long_backlog { 0 } else { *rng.pick(&[0u64, 0, 1, 7]) },
         reader_delay_ms,
         back_msgs: if !long_backlog && rng.chance(300) { rng.range(1, 3) as u8 } else { 0 },
+        preface: matches!(medium_is_serde, true) && rng.chance(250),
     })
 }
 
@@ -457,6 +468,11 @@ where
     <S as Sink<M>>::Error: std::fmt::Debug,
     E: std::fmt::Debug,
 {
+    if scn.preface {
+        if let Some(dir) = &raw {
+            pipe::inject(dir, &frame(PREFACE));
+        }
+    }
     for (i, m) in scn.msgs.iter().enumerate() {
         if scn.gap_ms > 0 && i > 0 {
             tokio::time::sleep(Duration::from_millis(scn.gap_ms)).await;
@@ -581,23 +597,57 @@ where
     }
 }
 
+/// Builds the reading end's `Framed` and, if the scenario has a preface, consumes it the way an
+/// application-level handshake would: from the `Framed` itself, before the serde transport wraps it.
+async fn take_preface(sim: &Rc<Sim>, end: End, scn: &RtScn, sh: &Rc<RefCell<RtShared>>) -> Option<(Framed<End, LengthDelimitedCodec>, u64)> {
+    let mut f = Framed::new(end, LengthDelimitedCodec::new());
+    if !scn.preface {
+        return Some((f, scn.reader_delay_ms));
+    }
+    if scn.reader_delay_ms > 0 {
+        tokio::time::sleep(Duration::from_millis(scn.reader_delay_ms)).await;
+        sim.count("probe.reader_started_late");
+    }
+    match f.next().await {
+        Some(Ok(b)) if &b[..] == PREFACE => {
+            if !f.read_buffer().is_empty() {
+                sim.count("probe.frames_read_ahead_behind_preface");
+            }
+            Some((f, 0))
+        }
+        other => {
+            sh.borrow_mut().reader_done.get_or_insert(Err(format!("preface not delivered: {other:?}")));
+            None
+        }
+    }
+}
+
 fn spawn_rt<M: Wire>(sim: &Rc<Sim>, scn: &RtScn, sh: &Rc<RefCell<RtShared>>) -> (usize, usize) {
     match &scn.medium {
         Medium::SerdeJson => {
             let (a, b) = pipe(scn.pipe.clone());
             let raw = a.wr.clone();
             let w = tarpc::serde_transport::new::<End, M, M, Json<M, M>>(Framed::new(a, LengthDelimitedCodec::new()), Json::default());
-            let r = tarpc::serde_transport::new::<End, M, M, Json<M, M>>(Framed::new(b, LengthDelimitedCodec::new()), Json::default());
             let wt = sim.spawn("writer", write_all::<M, _, _>(sim.clone(), w, scn.clone(), sh.clone(), Some(raw)));
-            let rt = sim.spawn("reader", read_all::<M, _, _>(sim.clone(), r, sh.clone(), scn.reader_delay_ms, scn.clone()));
+            let (sim2, sh2, scn2) = (sim.clone(), sh.clone(), scn.clone());
+            let rt = sim.spawn("reader", async move {
+                let Some((f, delay)) = take_preface(&sim2, b, &scn2, &sh2).await else { return };
+                let r = tarpc::serde_transport::new::<End, M, M, Json<M, M>>(f, Json::default());
+                read_all::<M, _, _>(sim2, r, sh2, delay, scn2).await
+            });
             (wt, rt)
         }
         Medium::SerdeBincode => {
             let (a, b) = pipe(scn.pipe.clone());
+            let raw = a.wr.clone();
             let w = tarpc::serde_transport::new::<End, M, M, Bincode<M, M>>(Framed::new(a, LengthDelimitedCodec::new()), Bincode::default());
-            let r = tarpc::serde_transport::new::<End, M, M, Bincode<M, M>>(Framed::new(b, LengthDelimitedCodec::new()), Bincode::default());
-            let wt = sim.spawn("writer", write_all::<M, _, _>(sim.clone(), w, scn.clone(), sh.clone(), None));
-            let rt = sim.spawn("reader", read_all::<M, _, _>(sim.clone(), r, sh.clone(), scn.reader_delay_ms, scn.clone()));
+            let wt = sim.spawn("writer", write_all::<M, _, _>(sim.clone(), w, scn.clone(), sh.clone(), Some(raw)));
+            let (sim2, sh2, scn2) = (sim.clone(), sh.clone(), scn.clone());
+            let rt = sim.spawn("reader", async move {
+                let Some((f, delay)) = take_preface(&sim2, b, &scn2, &sh2).await else { return };
+                let r = tarpc::serde_transport::new::<End, M, M, Bincode<M, M>>(f, Bincode::default());
+                read_all::<M, _, _>(sim2, r, sh2, delay, scn2).await
+            });
             (wt, rt)
         }
         Medium::MemUnbounded => {
@@ -1180,6 +1230,38 @@ fn run_adversary(scn: &AdvScn, tape: Tape) -> RunOutput {
                     }
                     if c.is_none() {
                         v.push(viol("C16", "service-lost", &[codec, side, "call-hang"], format!("the probe call never resolved (dispatch {d:?})")));
+                    }
+                }
+            }
+            // A well-formed request whose remaining duration is beyond anything a run can reach
+            // (including durations no Instant can hold) must not come back as a deadline that an
+            // execution could actually reach: "never earlier than the caller's" as far as anyone
+            // can tell. 780 days is the longest simulated run and within the timer queue's range.
+            if !scn.attack_client && !panicked {
+                const FAR_US: i128 = 780 * 86_400 * 1_000_000;
+                for e in log.iter() {
+                    if let EvKind::HandlerStart { id, inc, deadline_us, .. } = &e.kind {
+                        // several chunks may use one id; the body (echoed as `inc`) tells them apart
+                        let matching: Vec<i128> = scn
+                            .chunks
+                            .iter()
+                            .filter_map(|c| match c {
+                                Chunk::Valid(AdvMsg::Req { id: i, secs, nanos, body }) | Chunk::Flood { base: AdvMsg::Req { id: i, secs, nanos, body }, .. } if i == id && *body as u32 == *inc => Some((*secs as i128) * 1_000_000 + (*nanos as i128) / 1000),
+                                _ => None,
+                            })
+                            .collect();
+                        let wire = if matching.is_empty() { None } else { matching.iter().min().copied() };
+                        // (a flipped frame may decode into anything: only ids that no flipped or
+                        // garbage chunk could have produced are judged)
+                        let only_valid = scn.chunks.iter().all(|c| matches!(c, Chunk::Valid(_) | Chunk::Flood { .. }));
+                        if let (Some(w), true) = (wire, only_valid) {
+                            let remaining = (*deadline_us as i128) - (e.t as i128) * 1000;
+                            if w >= FAR_US && remaining < FAR_US {
+                                let what = format!("request {id} was sent with {} s remaining; the handler observes a deadline only {} s away", w / 1_000_000, remaining / 1_000_000);
+                                v.push(viol("C07", "earlier", &[codec, "far"], what.clone()));
+                                v.push(viol("C06", "early", &[codec, "decoded-deadline"], format!("{what}: the channel arms its timer from that value and will abort the handler then")));
+                            }
+                        }
                     }
                 }
             }
